@@ -67,13 +67,17 @@ def generators(tier, seed):
                   chunk="edge", max_chunks=3, max_calls=1000, max_faults=0, inv="ObsOk PkInv"))
     if not q:
         trip = [[p[0], p[1], BIG[(i * 3 + seed) % 10]] for i, p in enumerate(rotation_pairs(seed, 10, 4))]
-        g.append(dict(name="pk_edge4", machine="pk", ins=rotation_pairs(seed, 10, 2) + trip[:4], outs=[[]], modes=["ext", "spw", "alt"],
+        # 4259845 = MAX_RESERVE_CAPACITY + MIN_RESERVE_CAPACITY + 5: beyond the upper clamp of the reserve rule
+        g.append(dict(name="pk_edge4", machine="pk", ins=rotation_pairs(seed, 10, 2) + trip[:4] + [[4259845], [4194309, 5]], outs=[[]], modes=["ext", "spw", "alt"],
                       chunk="edge", max_chunks=4, max_calls=1000, max_faults=0, inv="ObsOk PkInv"))
     # (b) TokioTransport, receive direction
     g.append(dict(name="rx_all", machine="tokio", ins=[[5], [6, 5]] if q else [[5], [7], [5, 6], [6, 5]], outs=[[]], modes=["free"],
                   chunk="all", max_chunks=0, max_calls=8, max_faults=1 if q else 2, inv="ObsOk PkInv TokInv"))
     g.append(dict(name="rx_edge", machine="tokio", ins=rotation_pairs(seed, 10, 3) if q else all_pairs, outs=[[]], modes=["free"],
                   chunk="edge", max_chunks=3, max_calls=8, max_faults=1, inv="ObsOk PkInv TokInv"))
+    if not q:
+        g.append(dict(name="rx_huge", machine="tokio", ins=[[4259845, 5], [22, 4194309]], outs=[[]], modes=["free"],
+                      chunk="edge", max_chunks=4, max_calls=8, max_faults=1, inv="ObsOk PkInv TokInv"))
     # (b) TokioTransport, send direction: below, at and above the backpressure boundary
     g.append(dict(name="tx_all", machine="tokio", ins=[[]], outs=[[5], [7]] if q else [[5], [7], [5, 6]], modes=["free"],
                   chunk="all", max_chunks=0, max_calls=10 if q else 12, max_faults=1 if q else 2, inv="ObsOk TokInv"))
